@@ -46,6 +46,7 @@ func NewExecCtx(errs ZogIssues, fmter IssueFmtFunc) *ExecCtx {
 	VerifEmit("get", "execctx", "", c)
 	c.Fmter = fmter
 	c.Errors = errs
+	c.m = nil
 	return c
 }
 
